@@ -1018,6 +1018,10 @@ class Job:
         state = dict(self.__dict__)
         # Locks are not pickleable and must be removed from the state
         del state["_lock"]
+        # The document and stores are created lazily and are bound to locks
+        # registered in this process; a copy creates its own on first access.
+        state["_document"] = None
+        state["_stores"] = None
         return state
 
     def __setstate__(self, state):
